@@ -9,7 +9,7 @@
 (* would have accepted is drift.  The generic block formulas of Exec.tla   *)
 (* (C07 / C08 / C14) are evaluated on the same events.                     *)
 (***************************************************************************)
-EXTENDS Interchain, Json, IOUtils
+EXTENDS Interchain, Surface, Json, IOUtils
 
 TraceFile == IF "TRACE" \in DOMAIN IOEnv THEN IOEnv.TRACE ELSE "trace.ndjson"
 Tr == ndJsonDeserialize(TraceFile)
@@ -24,7 +24,10 @@ SvcMap(list) == [s \in {x.svc : x \in ToSet(list)} |-> (CHOOSE x \in ToSet(list)
 
 \* judge and apply one transaction; acc = [g, v, d]
 TxStep(acc, en, t) ==
-  IF t.k # "ibtp" THEN acc
+  IF t.k = "invoke" /\ t.cls = "surface"
+  THEN [acc EXCEPT !.v = @ \cup (IF C17_InternalOnly(t) THEN {} ELSE {<<"C17_InternalOnly", [c |-> t.c, m |-> t.m, role |-> t.role]>>})
+                          \cup (IF C17_Privileged(t) THEN {} ELSE {<<"C17_Privileged", [c |-> t.c, m |-> t.m, role |-> t.role]>>})]
+  ELSE IF t.k # "ibtp" THEN acc
   ELSE
   LET gg == acc.g
       ok == t.status = "SUCCESS"
@@ -130,6 +133,9 @@ BlockStep(e) ==
                        LET t == CHOOSE y \in SeqRange(e.txs) : y.k = "ibtp" /\ y.id = x IN IF t.srcLocal THEN t.srcChain ELSE UnionPier]
   IN [g |-> g2,
       v |-> r.v \cup CtrViol(g2, e.counters) \cup StatusViol(r.g, g2, e.h, e.status)
+                \cup (IF Len(e.txs) > 0 /\ (\A i \in 1..Len(e.txs) : e.txs[i].k = "invoke" /\ e.txs[i].cls = "surface" /\ e.txs[i].role # "govadmin")
+                          /\ (CtrViol(g2, e.counters) \cup StatusViol(r.g, g2, e.h, e.status)) # {}
+                      THEN {<<"C17_NoForeignDelete", {[c |-> e.txs[i].c, m |-> e.txs[i].m] : i \in 1..Len(e.txs)}>>} ELSE {})
                 \cup DelivViol(en, e.txs, e.counter) \cup GroupViol(g2, e.groups),
       d |-> r.d, src |-> srcChainOf]
 
